@@ -3,7 +3,7 @@
    changes, these proofs are re-checked against the new text. *)
 From Coq Require Import ZifyBool ZifyNat.
 From EsVerif.Common Require Import Base.
-From EsVerif.C20 Require Import Model Model2 Spec Proofs Proofs2 Meter Gen.
+From EsVerif.C20 Require Import Model Model2 Spec Proofs Proofs2 Meter Shape Gen.
 Ltac Zify.zify_post_hook ::= Z.to_euclidean_division_equations.
 
 (* ------------------------------------------------------------------ isplit *)
@@ -187,3 +187,26 @@ Proof. intros. reflexivity. Qed.
 Theorem src_meter_safe : forall n total el, (n = 0 -> el <> SPos) ->
   match meter_total n total with Some t => divisions_raise gen_meter_divisions n t el | None => false end = false.
 Proof. intros n total el H. rewrite tie_meter_divisions. exact (meter_safe n total el H). Qed.
+
+(* ------------------------------------------------- round 6: defaults, literals, time test, wrapper expressions *)
+Theorem tie_shapes :
+  gen_pbar_defaults = model_pbar_defaults /\ gen_pmap_defaults = model_pmap_defaults
+  /\ gen_full_first_meter = first_meter /\ gen_full_init = full_init
+  /\ (forall a b c, gen_full_time_test a b c = time_test a b c)
+  /\ (forall n, gen_full_last_update n = last_update n)
+  /\ gen_prange_expr = prange_expr /\ gen_pmap_expr = pmap_expr.
+Proof. repeat split. Qed.
+
+(* pmap and prange as composed in the source, evaluated: the models *)
+Theorem src_pmap_kw : forall c f items chunksize schedule,
+  1 <= chunksize ->
+  (forall k, 0 <= k < Z.of_nat (length (chunks_of (length items) (Z.to_nat chunksize) items)) -> In k schedule) ->
+  pbar_defined (as_generator c) (map f items) ->
+  eval_pmap c f items chunksize schedule gen_pmap_expr = Some (map f items, None).
+Proof. intros. destruct tie_shapes as (_ & _ & _ & _ & _ & _ & _ & ->). apply pmap_kw_spec; assumption. Qed.
+
+Theorem src_prange : forall c args, eval_prange c args gen_prange_expr = prange c args.
+Proof. intros. destruct tie_shapes as (_ & _ & _ & _ & _ & _ & -> & _). reflexivity. Qed.
+
+Theorem src_pbar_defaults : forall has_len items, pbar_ok items (pbar (default_cfg gen_pbar_defaults has_len) items).
+Proof. intros. destruct tie_shapes as (-> & _). apply pbar_defaults_ok. Qed.
